@@ -494,6 +494,16 @@ class Session:
             e = self.pick(ents, op["a"], lambda x: not_root(x))
             if e is None:
                 return
+            compat = lambda d, x: (is_obj(x) and type(x) is type(d.parent) and x is not d.parent  # noqa: E731
+                                   and getattr(x, "n_vertices", None) == getattr(d.parent, "n_vertices", None)
+                                   and getattr(x, "n_cells", None) == getattr(d.parent, "n_cells", None))
+            if op["c"] % 2 == 0:
+                # half of the moves re-parent a data set that is listed in a property group (when one can move at all)
+                in_pg = [d for d in ents if is_data(d) and any(d.uid in (g.properties or []) for g in (getattr(d.parent, "property_groups", None) or []))
+                         and any(compat(d, x) for x in ents)]
+                if in_pg:
+                    e = in_pg[op["a"] % len(in_pg)]
+                del in_pg
             # exclude the entity's own subtree as a target
             sub = set(tree_uids(api_tree(self.uids, e)))
             if is_data(e):
